@@ -1986,6 +1986,9 @@ static int bufr_rd_section2(bufr_read_callback readcb, void *cd,
    /* discard */
 	if( 1 != bufr_read_octet( readcb, cd, &c ) ) return -1;
 
+   /* a section shorter than its own header: the data length below would wrap around */
+   if (bufr->s2.len < bufr->s2.header_len) return -1;
+
    bufr->s2.data_len = len2 = len = bufr->s2.len - bufr->s2.header_len;
 
    if (bufr_is_verbose())
